@@ -300,6 +300,12 @@ def run(ctx):
         ctx.notes.append("as-found divergence: a sender still on its way when the next session calls PrepareRegKeys on the same registrar encrypts "
                          "its registration with the NEXT session's keys (it does not decode with its own session's secret)")
 
+    p5 = pstage.get("registrar-dialer", {})
+    if p5 and p5.get("dials_through_registrar_dialer") == 0:
+        ctx.notes.append("as-found divergence: the dialer given to NewDecoyRegistrarWithDialer (field comment: 'custom dialer to use when establishing "
+                         "TCP connections to decoys') is not used for the decoys: %d of %d senders dialled through ConjureSession.Dialer"
+                         % (p5.get("dials_through_session_dialer"), p5.get("senders")))
+
     # ---------------------------------------------------------------- B
     beh_all, counts, total, behs = f_gen.result()
     ctx.log("B: behaviours %s (complete enumerations: %s)" % (counts, {k: v for k, v in total.items() if k != "sim"}))
@@ -458,7 +464,7 @@ def run(ctx):
         for name, pick, change in (
                 ("DialRet.set", lambda e: e["a"] == "DialRet" and e["set"], lambda e: e.__setitem__("set", False)),
                 ("Return.err", lambda e: e["a"] == "Return" and e["err"] == "none", lambda e: (e.__setitem__("err", "unreachable"), e.__setitem__("reg", False))),
-                ("Recv.s", lambda e: e["a"] == "Recv" and e["v"] == "unreach", lambda e: e.__setitem__("v", "dialerr"))):
+                ("Recv.v", lambda e: e["a"] == "Recv" and e["v"] == "unreach", lambda e: e.__setitem__("v", "dialerr"))):
             bad = copy.deepcopy(traces[:60])
             hit = False
             for t in bad:
